@@ -38,15 +38,41 @@ pub fn secret(len: usize, fill: usize) -> String {
             }
             s
         }
-        _ => {
+        3 => {
             let mut s = "s".repeat(len.saturating_sub(1));
             if len > 0 {
                 s.push('\0');
             }
             s
         }
+        4 => {
+            // trailing line ending (as read from a credentials file)
+            let mut s = "n".repeat(len.saturating_sub(1));
+            if len > 0 {
+                s.push('\n');
+            }
+            s
+        }
+        5 => {
+            // leading and trailing blanks / tab
+            match len {
+                0 => String::new(),
+                1 => " ".into(),
+                2 => " \t".into(),
+                _ => format!(" {}\t", "b".repeat(len - 2)),
+            }
+        }
+        _ => {
+            // trailing no-break space (multi-byte whitespace)
+            if len < 2 {
+                "\r".repeat(len)
+            } else {
+                format!("{}\u{a0}", "u".repeat(len - 2))
+            }
+        }
     }
 }
+pub const NFILLS: u64 = 7;
 
 fn cap_result<const M: usize>(s: &str) -> Result<Result<(), ()>, String> {
     catch_unwind(AssertUnwindSafe(|| match KSecretKey::<M>::from_str(s) {
@@ -164,11 +190,11 @@ pub fn run(ctx: &Ctx) -> Report {
     // (1) capacities x lengths x fills
     let caps = [0usize, 1, 3, 4, 5, 44, 45, 64, 128];
     let max_len = 140usize;
-    let n1 = (caps.len() * (max_len + 1) * 4) as u64;
+    let n1 = (caps.len() * (max_len + 1)) as u64 * NFILLS;
     let mut st = par_sweep(n1, |i, st| {
-        let fill = (i % 4) as usize;
-        let len = ((i / 4) % (max_len as u64 + 1)) as usize;
-        let m = caps[(i / 4 / (max_len as u64 + 1)) as usize];
+        let fill = (i % NFILLS) as usize;
+        let len = ((i / NFILLS) % (max_len as u64 + 1)) as usize;
+        let m = caps[(i / NFILLS / (max_len as u64 + 1)) as usize];
         let s = secret(len, fill);
         check_capacity(i, m, &s, st);
         st.sample(i, n1, || json!({"capacity": m, "secret_len": len, "fill": fill}));
@@ -185,15 +211,15 @@ pub fn run(ctx: &Ctx) -> Report {
         }
     }
     let nd = special_dates.len() as u64;
-    let n2 = 41 * 4 * nd * 36;
+    let n2 = 41 * NFILLS * nd * 36;
     let st2 = par_sweep(n2, |i, st| {
         let mut x = i;
         let sc = (x % 36) as usize;
         x /= 36;
         let d = special_dates[(x % nd) as usize];
         x /= nd;
-        let fill = (x % 4) as usize;
-        x /= 4;
+        let fill = (x % NFILLS) as usize;
+        x /= NFILLS;
         let len = x as usize;
         let s = secret(len, fill);
         let (r, v) = (scope_str(sc / 6), scope_str(sc % 6));
@@ -221,7 +247,7 @@ pub fn run(ctx: &Ctx) -> Report {
     Report {
         stats: st,
         rule: format!(
-            "(1) capacities {{0,1,3,4,5,44,45,64,128}} x every secret length 0..={} x 4 fills (ASCII, mixed, multi-byte UTF-8, trailing NUL): accepted iff capacity >= 4 and length <= capacity-4, never a panic; (2) every accepted length 0..=40 x 4 fills x {} special dates (years 1/999/1000/9999, every 29 Feb 1896-2104) x 36 (region, service) pairs over {{empty, us-east-1, non-ASCII, 1000 bytes, with '/', with NUL}}: read-back of the secret, the four chain keys and all six shortcut derivations compared with the reference HMAC chain; (3) every calendar date {}-01-01..{}-12-31. states = distinct reference signing keys; non-trivial = distinct inputs",
+            "(1) capacities {{0,1,3,4,5,44,45,64,128}} x every secret length 0..={} x 7 fills (ASCII, mixed, multi-byte UTF-8, trailing NUL, trailing newline, leading/trailing blank and tab, trailing no-break space): accepted iff capacity >= 4 and length <= capacity-4, never a panic; (2) every accepted length 0..=40 x 7 fills x {} special dates (years 1/999/1000/9999, every 29 Feb 1896-2104) x 36 (region, service) pairs over {{empty, us-east-1, non-ASCII, 1000 bytes, with '/', with NUL}}: read-back of the secret, the four chain keys and all six shortcut derivations compared with the reference HMAC chain; (3) every calendar date {}-01-01..{}-12-31. states = distinct reference signing keys; non-trivial = distinct inputs",
             max_len, nd, y0, y1
         ),
         bounds: json!({"max_secret_len": max_len, "dates_from_year": y0, "dates_to_year": y1}),
